@@ -14,11 +14,11 @@ PYTEAL_ERRORS = ("TealInputError", "TealCompileError", "TealTypeError", "TealInt
 def contexts(mode):
     from spec import avm
     if mode == "Signature":
-        return [avm.Ctx(mode="Signature", args=[b"a", b"bb"], txn={"Fee": 1000, "Amount": 5}),
-                avm.Ctx(mode="Signature", args=[b"", b"\x00\x01"], txn={"Fee": 0, "Amount": 2 ** 40})]
-    return [avm.Ctx(txn={"ApplicationArgs": [b"a", b"b"], "ApplicationID": 0, "OnCompletion": 0, "Fee": 1000}),
+        return [avm.Ctx(mode="Signature", args=[b"a", b"bb"], txn={"Fee": 1000, "Amount": 5}, max_call_depth=8),
+                avm.Ctx(mode="Signature", args=[b"", b"\x00\x01"], txn={"Fee": 0, "Amount": 2 ** 40}, max_call_depth=8)]
+    return [avm.Ctx(txn={"ApplicationArgs": [b"a", b"b"], "ApplicationID": 0, "OnCompletion": 0, "Fee": 1000}, max_call_depth=8),
             avm.Ctx(txn={"ApplicationArgs": [], "ApplicationID": 5, "OnCompletion": 1, "Fee": 3, "Amount": 9,
-                         "GroupIndex": 1, "Note": b"note"}, global_state={b"k1": 7})]
+                         "GroupIndex": 1, "Note": b"note"}, global_state={b"k1": 7}, max_call_depth=8)]
 
 
 def clone_ctx(c):
